@@ -38,7 +38,7 @@ func main() {
 	}
 	nCorpus := len(cases)
 	for len(cases)-nCorpus < a.N { // N counts logins; a group contributes one case per login
-		cases = append(cases, w.run(gen(r))...)
+		cases = append(cases, w.run(gen(w, r))...)
 	}
 	if w.selfCheckFailures > 0 {
 		fmt.Fprintf(os.Stderr, "harness self-check: %d un-mangled renderings were classified differently from their intended class\n", w.selfCheckFailures)
